@@ -47,6 +47,8 @@ def history_ops(case, observe=("obs",)):
         else:
             break        # malformed input, foreign exceptions …: not the model's business (C04/C07)
         ops.append(mop); exp.append(e)
+        if lib.ambiguous_placeholders(g):
+            break
         if "obs" in observe:
             o = lib.outcome(lib.obs_flat, g)
             if o[0] != "ok" or "# INVALID" in o[1]:
